@@ -113,6 +113,7 @@ def run(ctx):
     ctx.rule = ("random manager histories of expression and function tasks over fault-injecting containers: the k-th container write of an "
                 "update raises (k = 0 is the assigned location itself), 1-3 faulty updates in a row, then the fault-free repeat; a twin "
                 "fault-free run of the same history is the reference; non-trivial = a fault that fired after >= 1 task had run; distinct by op list")
+    ctx.scale_if_changed()
     proof_ok = vlib.standard_proof_part(ctx, "props/C18.v", extra_targets=["run/RunManager.vo"])
     cases = systematic_cases() + [mc.gen_history(ctx.rng, "fault", nops=ctx.rng.randint(5, 14)) for _ in range(ctx.pick(260, 5000))]
     obs = mc.run_impl_cases(cases)
